@@ -685,14 +685,15 @@ def build_pool():
     return pool
 
 
-def wire_rx(kind, m, enc, ts="00:01:02.345"):
+def wire_rx(kind, m, enc, ts="00:01:02.345", direction="R"):
     """The packets a gateway of this kind would send for message m (receive direction)."""
     if kind == "ebyte":
         return [p.ljust(13, b"\0") for p in enc.encode_ebyte(m)]
     if kind == "waveshare":
         return list(enc.encode_usb(m))
     if kind == "yd":
-        return [(ts + " R ").encode() + p for p in enc.encode_yacht_devices(m)]
+        # the RAW protocol has two directions: R (received from the bus) and T (the gateway's own transmissions, echoed)
+        return [(ts + " " + direction + " ").encode() + p for p in enc.encode_yacht_devices(m)]
     if kind == "actisense":
         return [("A000123.456 " + enc.encode_actisense(m) + "\r\n").encode()]
     raise ValueError(kind)
